@@ -94,25 +94,22 @@ def check(ctx: Ctx) -> None:
     tf = M.func(BD, 'BlockDiagonalizer._get_tilde_channel')
     ctx.instance('C09.a', 'BlockDiagonalizer._get_tilde_channel')
     up = [p for p in tf.params if p not in ('self', 'mtChannel')][0]
-    comps = [n for n in ast.walk(tf.node) if isinstance(n, ast.ListComp)]
-    loc = {n.targets[0].id: n.value for n in walk_no_nested(tf.node) if isinstance(n, ast.Assign) and isinstance(n.targets[0], ast.Name)}
-    ok = False
-    detail = {}
-    if len(comps) == 1 and len(comps[0].generators) == 1:
-        g = comps[0].generators[0]
-        it = loc.get(norm(g.iter), g.iter) if isinstance(g.iter, ast.Name) else g.iter
-        dom = norm(it).replace(' ', '')
-        filt = [norm(c).replace(' ', '') for c in g.ifs]
-        v = norm(g.target)
-        detail = {'domain': dom, 'filter': filt}
-        ok = dom in ('np.arange(0,self.num_users)', 'range(self.num_users)', 'np.arange(self.num_users)', 'range(0,self.num_users)') \
-            and filt in (['%s!=%s' % (v, up)], ['%s!=%s' % (up, v)]) and norm(comps[0].elt) == v
-        call = [c for c in ast.walk(tf.node) if isinstance(c, ast.Call) and is_self_attr(c.func, 'self') == '_get_sub_channel']
-        ok = ok and len(call) == 1 and len(call[0].args) == 2 and loc.get(norm(call[0].args[1])) is comps[0]
+    from ..astutil import all_but_one, expander
+    ex = expander(tf)
+    call = [c for c in ast.walk(tf.node) if isinstance(c, ast.Call) and is_self_attr(c.func, 'self') == '_get_sub_channel']
+    if len(call) != 1 or len(call[0].args) != 2:
+        ctx.error('C09.a: _get_tilde_channel no longer obtains the stacked channel from one _get_sub_channel(channel, users) call (cannot tell)')
+    sel = all_but_one(call[0].args[1], ex)
+    if sel is None:
+        ctx.error('C09.a: the users whose channels are stacked, `%s`, are not selected in a recognised "all users except one" form (cannot tell)'
+                  % norm(ex(call[0].args[1]))[:80])
+    detail = {'selection': norm(ex(call[0].args[1]))[:90], 'recognised_as': list(sel)}
+    ok = sel[0] == 'ok' and sel[1] in ('self.num_users', 'self._iNUsers', 'self.K') and sel[2] == up
     ctx.obligation('C09.a', 'BlockDiagonalizer._get_tilde_channel', ok, detail)
     if not ok:
+        why = sel[1] if sel[0] == 'bad' else 'it is {0..%s-1} minus {%s}, not all %s users minus {%s}' % (sel[1], sel[2], 'self.num_users', up)
         ctx.violation('C09.a', 'BlockDiagonalizer._get_tilde_channel', 'the stacked channel is not that of all users except `%s` (%s): the '
-                      'precoder is then not in the null space of some other user' % (up, detail), tf.path, tf.lineno, operand='domain')
+                      'precoder is then not in the null space of some other user' % (up, why), tf.path, tf.lineno, operand='domain')
     bf = M.func(BD, 'BlockDiagonalizer._calc_BD_matrix_no_power_scaling')
     ctx.instance('C09.a', 'BlockDiagonalizer._calc_BD_matrix_no_power_scaling')
     loops = [n for n in walk_no_nested(bf.node) if isinstance(n, ast.For)]
@@ -319,27 +316,39 @@ def _check_normalisers(ctx: Ctx) -> None:
             problems.append('the normalised block is not stored once per user')
         else:
             try:
-                env = T.Env(M, fn)
-                # norms and blocks stay symbols; everything derived from them in the loop body is followed sequentially
-                keep = {nn for nn, nv in lloc.items() if (isinstance(nv, ast.Call) and norm(nv.func) == 'np.linalg.norm') or isinstance(nv, ast.Subscript)}
-                body_stmts = [x for x in l.body if not (isinstance(x, ast.Assign) and isinstance(x.targets[0], ast.Name) and x.targets[0].id in keep)]
-                env = T.block_env(M, fn, [x for x in body_stmts if x is not st[0]], env)
-                val = T.from_ast(st[0].value, env)
-                # expected: B * sqrt(iPu) / ||B||_F for the same block B
-                names = [x.id for x in ast.walk(st[0].value) if isinstance(x, ast.Name) and x.id in lloc] + \
-                    [a[1] for a in T.atoms_of(val) if a[0] == 'sym' and a[1] in lloc]
-                okv = False
-                for b in set(names):
-                    for nn, nv in lloc.items():
-                        if isinstance(nv, ast.Call) and norm(nv.func) == 'np.linalg.norm' and nv.args and norm(nv.args[0]) == b \
-                                and len(nv.args) >= 2 and isinstance(nv.args[1], ast.Constant) and nv.args[1].value == 'fro':
-                            want = T.parse_spec('B * sqrt(self.iPu) / N_', B=T.Term.sym(b), N_=T.Term.sym(nn))
-                            if val == want:
-                                okv = True
+                # the loop body's locals are expanded; every block `X[...]` becomes a symbol B<k> and every Frobenius norm of a block the
+                # symbol N<k> of that block, so `B * sqrt(iPu) / ||B||_F` is recognised however the pieces were named
+                from ..astutil import expand
+                import copy as _copy
+                seq_defs = {}
+                for x in l.body:
+                    if isinstance(x, ast.Assign) and len(x.targets) == 1 and isinstance(x.targets[0], ast.Name):
+                        seq_defs[x.targets[0].id] = expand(x.value, dict(seq_defs))
+                full = expand(st[0].value, seq_defs)
+                blocks_: Dict[str, str] = {}
+
+                class Sym(ast.NodeTransformer):
+                    def visit_Call(self, c):
+                        if norm(c.func) == 'np.linalg.norm' and c.args:
+                            if not (len(c.args) >= 2 and isinstance(c.args[1], ast.Constant) and c.args[1].value == 'fro'):
+                                raise T.Unknown('a norm that is not the Frobenius norm: %s' % norm(c)[:50])
+                            key = norm(c.args[0]).replace(' ', '')
+                            k = blocks_.setdefault(key, 'B%d' % len(blocks_))
+                            return ast.copy_location(ast.Name(id='N_' + k, ctx=ast.Load()), c)
+                        self.generic_visit(c)
+                        return c
+
+                    def visit_Subscript(self, sub):
+                        key = norm(sub).replace(' ', '')
+                        k = blocks_.setdefault(key, 'B%d' % len(blocks_))
+                        return ast.copy_location(ast.Name(id=k, ctx=ast.Load()), sub)
+                symd = Sym().visit(_copy.deepcopy(full))
+                val = T.from_ast(ast.fix_missing_locations(symd), T.Env(M, None))
+                okv = any(val == T.parse_spec('B * sqrt(self.iPu) / N_', B=T.Term.sym(k), N_=T.Term.sym('N_' + k)) for k in blocks_.values())
                 if not okv:
-                    problems.append('a block is scaled by `%s`, not by sqrt(iPu) / its own Frobenius norm' % norm(st[0].value))
+                    problems.append('a block is scaled by `%s`, not by sqrt(iPu) / its own Frobenius norm' % norm(full)[:90])
             except T.Unknown as e:
-                problems.append('scaling not recognised: %s' % e)
+                ctx.error('C09.c: %s: the scaling of the user block is not recognised (%s): cannot tell' % (q, e))
     ctx.obligation('C09.c', q, not problems, {'problems': problems})
     if problems:
         ctx.violation('C09.c', q, '; '.join(problems), fn.path, fn.lineno, operand='own-norm')
@@ -498,6 +507,8 @@ def _check_dispatch(ctx: Ctx) -> None:
         if isinstance(n, ast.If):
             names = [c.comparators[0].value for c in ast.walk(n.test) if isinstance(c, ast.Compare) and isinstance(c.comparators[0], ast.Constant)
                      and isinstance(c.comparators[0].value, str) and norm(c.left) == 'metric']
+            names += [x.value for c in ast.walk(n.test) if isinstance(c, ast.Compare) and norm(c.left) == 'metric' and isinstance(c.ops[0], ast.In)
+                      and isinstance(c.comparators[0], (ast.Tuple, ast.List, ast.Set)) for x in c.comparators[0].elts if isinstance(x, ast.Constant)]
             stores = [s for s in n.body if isinstance(s, ast.Assign) and is_self_attr(s.targets[0], 'self') == '_metric_func']
             nm = [s for s in n.body if isinstance(s, ast.Assign) and is_self_attr(s.targets[0], 'self') == '_metric_func_name']
             if names and stores and nm and isinstance(nm[0].value, ast.Constant):
@@ -505,8 +516,15 @@ def _check_dispatch(ctx: Ctx) -> None:
                 accepted[nm[0].value.value] = has
     explicit: Set[str] = set()
     for n in ast.walk(df.node):
-        if isinstance(n, ast.Compare) and is_self_attr(n.left, 'self') in ('_metric_func_name', 'metric_name') and isinstance(n.comparators[0], ast.Constant):
-            explicit.add(n.comparators[0].value)
+        if isinstance(n, ast.Compare) and len(n.ops) == 1 and is_self_attr(n.left, 'self') in ('_metric_func_name', 'metric_name'):
+            c = n.comparators[0]
+            if isinstance(c, ast.Constant):
+                explicit.add(c.value)
+            elif isinstance(n.ops[0], (ast.In, ast.NotIn)) and isinstance(c, (ast.Tuple, ast.List, ast.Set)):
+                explicit |= {x.value for x in c.elts if isinstance(x, ast.Constant)}
+        # a dispatch dictionary keyed by the metric name: {'naive': f, 'fixed': g}[self.metric_name] / .get(self.metric_name)
+        if isinstance(n, ast.Subscript) and isinstance(n.value, ast.Dict) and is_self_attr(n.slice, 'self') in ('_metric_func_name', 'metric_name'):
+            explicit |= {k.value for k in n.value.keys if isinstance(k, ast.Constant)}
     if not accepted:
         ctx.error('C09.f: accepted metric names not recognised in set_ext_int_handling_metric')
     for name, has in sorted(accepted.items()):
